@@ -539,6 +539,7 @@ pub fn run_c14(ctx: &Ctx, report: &mut Report) {
     report.push(sub);
     // Larger random scope.
     report.push(run_proptest(ctx, "random-larger-scope", ctx.cases(20_000, 1_000_000), 500, pair_strategy, exec_pair));
+    report.push(run_proptest(ctx, "member-scheduled-at-receiver", ctx.cases(20_000, 600_000), 500, pair_strategy, exec_pair_scheduled));
 }
 
 fn copy_strategy(vmax: u64, max_entries: usize) -> impl Strategy<Value = CopySpec> {
@@ -562,7 +563,69 @@ pub fn pair_strategy() -> impl Strategy<Value = PairCase> {
         })
 }
 
+/// C14 variant: at the receiver the member has been dead for more than half the dead-node grace
+/// period (scheduled for deletion: its digest no longer lists the member) but its copy is still
+/// held; the sender still hears from the member. The delta the sender computes from that digest
+/// (necessarily from version 0) must be applied by the receiver exactly like any other.
+pub fn exec_pair_scheduled(case: &PairCase, tally: &mut Tally) -> Result<(), Failure> {
+    let Some(rc) = case.receiver.clone() else { return Ok(()) };
+    crate::util::with_paused_runtime(async {
+        let fd20 = FdCfg { dead_grace_ms: 20_000, ..FdCfg::default() };
+        let mut s = build_node(&simple_id("s", 0, 7601), "c", Duration::from_secs(3600), &fd20, false, 0).chitchat;
+        let mut r = build_node(&simple_id("r", 0, 7602), "c", Duration::from_secs(3600), &fd20, false, 0).chitchat;
+        let x = member_x();
+        let xr = x.to_real();
+        for (n, c) in [(&mut s, &case.sender), (&mut r, &rc)] {
+            if let Err(e) = guard(|| install_copy(n, &x, c, 5)).map_err(|p| p.describe()).and_then(|r| r) {
+                tally.discard(&format!("setup: {}", e.chars().take(40).collect::<String>()));
+                return Ok(());
+            }
+        }
+        r.verif_update_nodes_liveness();
+        crate::util::advance_ns(10_000 * 1_000_000 + 1_000_000).await;
+        r.verif_update_nodes_liveness();
+        if !r.scheduled_for_deletion_nodes().any(|i| *i == xr) || r.node_state(&xr).is_none() {
+            tally.discard("member not scheduled for deletion at the receiver");
+            return Ok(());
+        }
+        let syn = r.verif_create_syn_message();
+        let reply = match guard(|| s.verif_process_message(syn)) {
+            Ok(Some(m)) => m,
+            Ok(None) => return vio("C14/no-synack", "no SYN-ACK".into()),
+            Err(p) => return vio(&format!("C14/{}", p.signature()), format!("sender panicked: {}", p.describe())),
+        };
+        let (_bytes, deltas) = extract_delta(&reply)?;
+        let Some(d) = deltas.iter().find(|d| d.id == x).cloned() else {
+            if case.sender.max > 0 {
+                return vio("C14/empty-delta-when-ahead", format!("the receiver's digest does not list the member (scheduled for deletion there), the sender holds it at ({},{}) but offered nothing", case.sender.gc, case.sender.max));
+            }
+            return Ok(());
+        };
+        let before = rc.clone();
+        match guard(|| r.verif_process_message(reply)) {
+            Ok(_) => {}
+            Err(p) => return vio(&format!("C14/{}", p.signature()), format!("receiver panicked: {}", p.describe())),
+        }
+        let Some(ns) = r.node_state(&xr) else {
+            return vio("C14/member-not-created", "the receiver dropped its copy while processing the SYN-ACK".into());
+        };
+        let after = read_spec(ns);
+        let (expected, _) = reference_apply(&before, &d);
+        if after != expected {
+            return vio("C14/scheduled-member-delta-not-applied", format!("receiver copy ({},{}) of a member it has scheduled for deletion, delta from {} watermark {} max {} computed from the receiver's own digest: the copy is now ({},{}) with {} entries, the reference apply gives ({},{}) with {} entries", before.gc, before.max, d.from_version, d.last_gc, d.max_version, after.gc, after.max, after.entries.len(), expected.gc, expected.max, expected.entries.len()));
+        }
+        if (expected.gc, expected.max) > (before.gc, before.max) {
+            tally.nontrivial(str_hash(&format!("{case:?}")));
+            tally.label("scheduled_member_copy_advanced");
+        }
+        Ok(())
+    })
+}
+
 pub fn replay_c14(ctx: &Ctx, sub: &str, case: &serde_json::Value) -> SubResult {
+    if sub == "member-scheduled-at-receiver" {
+        return replay_case::<PairCase, _>(ctx, sub, case, exec_pair_scheduled);
+    }
     replay_case::<PairCase, _>(ctx, sub, case, exec_pair)
 }
 
